@@ -790,6 +790,23 @@ impl Cx {
   // generate_method
   // -------------------------------------------------------------------------------------------------
   fn run_generate<D: Doc>(&mut self, env: &Env, doc: &mut D, scope: MethodScope, fragment: Option<&str>, plan: Plan, meta: &Meta) -> Outcome {
+    self.run_generate_kt(env, doc, &JwkMemStore::ED25519_KEY_TYPE, JwsAlgorithm::EdDSA, scope, fragment, plan, meta)
+  }
+
+  /// generate_method with arbitrary (key type, algorithm) arguments: the store itself may refuse them (a REAL failure of
+  /// `key.generate`, no fault injected) — the oracle is the same: Err (other than a reported failed undo) => nothing changed.
+  #[allow(clippy::too_many_arguments)]
+  fn run_generate_kt<D: Doc>(
+    &mut self,
+    env: &Env,
+    doc: &mut D,
+    key_type: &KeyType,
+    alg: JwsAlgorithm,
+    scope: MethodScope,
+    fragment: Option<&str>,
+    plan: Plan,
+    meta: &Meta,
+  ) -> Outcome {
     self.rep.eval();
     self.rep.inc("generate_runs");
     let did = doc.did();
@@ -797,10 +814,10 @@ impl Cx {
     let pre_ids: BTreeSet<String> = pre.doc.methods.iter().map(|(i, _, _)| i.clone()).collect();
     let want_id: Option<String> = fragment.map(|f| format!("{}#{}", did, f.trim_start_matches('#')));
     env.arm(plan.clone());
-    let res = catch(|| block_on(doc.generate_method(&env.st, JwkMemStore::ED25519_KEY_TYPE, JwsAlgorithm::EdDSA, fragment, scope)));
+    let res = catch(|| block_on(doc.generate_method(&env.st, key_type.clone(), alg.clone(), fragment, scope)));
     let log = env.disarm();
     let kid_mode = env.ctl.lock().unwrap().kid_mode.clone();
-    let base = json!({"op":"generate_method","scope":scope_key(scope),"fragment":fragment,"plan":plan_json(&plan),"calls":log_json(&log),
+    let base = json!({"op":"generate_method","key_type":key_type.as_str(),"alg":alg.to_string(),"scope":scope_key(scope),"fragment":fragment,"plan":plan_json(&plan),"calls":log_json(&log),
       "key_store_sets_kid": match &kid_mode { KidMode::Keep => json!("thumbprint (in-memory store default)"), KidMode::Strip => json!("no kid member"), KidMode::Set(k) => json!(k) }});
     let res = match res {
       Ok(r) => r,
@@ -849,15 +866,22 @@ impl Cx {
           case["before"] = doc_refs_json(&pre.doc);
           case["after"] = doc_refs_json(&post.doc);
           let desc = format!(
-            "{}::generate_method(scope={}, fragment={:?}) with failing [{}] returned Err({}) (not UndoOperationFailed) but state changed: {}",
+            "{}::generate_method(key_type={:?}, alg={}, scope={}, fragment={:?}) with failing [{}] returned Err({}) (not UndoOperationFailed) but state changed: {} (key store count {} -> {}, key-id store count {} -> {})",
             D::NAME,
+            key_type.as_str(),
+            alg,
             scope_key(scope),
             fragment,
-            fired(&log).iter().map(call_name).collect::<Vec<_>>().join(", "),
+            if nfired == 0 { "nothing injected: the store itself refused".to_string() } else { fired(&log).iter().map(call_name).collect::<Vec<_>>().join(", ") },
             e,
-            d.tags.iter().cloned().collect::<Vec<_>>().join(", ")
+            d.tags.iter().cloned().collect::<Vec<_>>().join(", "),
+            pre.st.key_count,
+            post.st.key_count,
+            pre.st.id_count,
+            post.st.id_count
           );
-          self.viol("generate", "err", &d.tags, meta, D::NAME, desc, case);
+          // a failure nobody injected (the shipped store refused the arguments / the state) is its own root-cause family
+          self.viol("generate", if nfired == 0 { "err-without-injected-fault" } else { "err" }, &d.tags, meta, D::NAME, desc, case);
           out.kind = Kind::Violation;
         }
       }
@@ -1913,6 +1937,532 @@ fn history<D: Doc>(cx: &mut Cx, rng: &mut Rng, hid: u64) {
 }
 
 // ====================================================================================================
+// REAL failures (nothing injected): argument grid over the (wrapped, pass-through) in-memory stores
+// ====================================================================================================
+
+/// Key types handed to generate_method: the ones the shipped store advertises, near misses and unknown ones.
+const KEY_TYPES: [&str; 8] = ["Ed25519", "BLS12381G2", "ed25519", "", "X25519", "secp256k1", "Ed25519 ", "P-256"];
+
+#[derive(Clone, Debug)]
+struct ArgScenario {
+  key_type: &'static str,
+  alg: JwsAlgorithm,
+  scope: MethodScope,
+  fragment: Option<&'static str>,
+  populated: bool,
+}
+
+fn arg_scenarios() -> Vec<ArgScenario> {
+  let mut v = Vec::new();
+  for key_type in KEY_TYPES {
+    for alg in JwsAlgorithm::ALL {
+      for scope in all_scopes() {
+        // fresh fragment, fragment from the kid, fragment of an existing general method / service (populated start)
+        for fragment in [None, Some("key-1"), Some("#m0"), Some("svc")] {
+          for populated in [false, true] {
+            v.push(ArgScenario { key_type, alg: alg.clone(), scope, fragment, populated });
+          }
+        }
+      }
+    }
+  }
+  v
+}
+
+fn arg_scenario_kind(a: &ArgScenario) -> String {
+  format!("{}|{}", a.key_type, if a.alg == JwsAlgorithm::EdDSA { "EdDSA" } else { "other" })
+}
+
+fn run_arg_scenario<D: Doc>(cx: &mut Cx, a: &ArgScenario, idx: u64) {
+  let meta = Meta {
+    origin: "arg-grid",
+    class: format!(
+      "args|kt={}|alg={}|{}|frag={}|pop{}",
+      a.key_type,
+      a.alg,
+      if a.scope == MethodScope::VerificationMethod { "general" } else { "embedded" },
+      a.fragment.unwrap_or("<kid>"),
+      a.populated as u8
+    ),
+    sig_suffix: "",
+    full_query: false,
+    detail: json!({"arg_scenario": idx, "key_type": a.key_type, "alg": a.alg.to_string(), "populated_document": a.populated}),
+  };
+  let kt = KeyType::new(a.key_type);
+  let mut setup_failed = false;
+  let (n, _universe) = enumerate_plans(|plan| {
+    let env = Env::new();
+    env.set_err_variant((idx % 5) as u8);
+    let mut doc = D::empty();
+    if a.populated && !populate(&mut doc, &env) {
+      setup_failed = true;
+      return Vec::new();
+    }
+    let o = cx.run_generate_kt(&env, &mut doc, &kt, a.alg.clone(), a.scope, a.fragment, Plan::Set(plan.clone()), &meta);
+    cx.rep.inc("arg_grid_runs");
+    let nf = fired(&o.log).len();
+    match o.kind {
+      Kind::Ok => cx.rep.inc("arg_grid_ok"),
+      Kind::ErrClean if nf == 0 => {
+        cx.rep.inc("real_failure_checked_clean");
+        // input classes known to the harness from the call's arguments alone
+        if a.key_type == "Ed25519" && a.alg != JwsAlgorithm::EdDSA {
+          cx.rep.inc("real_failure_checked_clean:supported_key_type_other_alg");
+        } else if a.key_type == "Ed25519" {
+          cx.rep.inc("real_failure_checked_clean:fragment_in_use");
+        } else {
+          cx.rep.inc("real_failure_checked_clean:other_key_type");
+        }
+      }
+      Kind::ErrClean => cx.rep.inc("arg_grid_err_clean_with_fault"),
+      Kind::ErrUndo => cx.rep.inc("arg_grid_err_undo"),
+      Kind::Violation => {}
+    }
+    o.log
+  });
+  cx.rep.count("plans_run", n);
+  cx.rep.count("arg_grid_plans_run", n);
+  if setup_failed {
+    cx.rep.inc("setup_failed");
+  }
+}
+
+// ====================================================================================================
+// REAL failures on the SHIPPED stores, unwrapped: Storage<JwkMemStore, KeyIdMemstore>, multi-step histories
+// ====================================================================================================
+
+type MemStorage = Storage<JwkMemStore, KeyIdMemstore>;
+
+/// What the harness knows about one storage-backed method it has seen come into being.
+struct Known {
+  frag: String,
+  general: bool,
+  kid: KeyId,
+  digest: MethodDigest,
+  jwk: Jwk,
+}
+
+#[derive(Clone, Debug, PartialEq, Eq)]
+struct ShippedSnap {
+  doc: DocModel,
+  key_count: usize,
+  id_count: usize,
+  /// per known method: key exists, recorded key id, the key signs verifiably under the method's public JWK
+  known: Vec<(bool, Option<String>, bool)>,
+}
+
+fn raw_verify(jwk: &Jwk, msg: &[u8], sig: &[u8]) -> bool {
+  let Ok(sig): Result<[u8; 64], _> = sig.try_into() else { return false };
+  let Ok(okp) = jwk.try_okp_params() else { return false };
+  let Some(x) = vh::b64::url_decode(&okp.x) else { return false };
+  let Ok(x): Result<[u8; 32], _> = x.try_into() else { return false };
+  let Ok(pk) = ed::PublicKey::try_from_bytes(x) else { return false };
+  pk.verify(&ed::Signature::from_bytes(sig), msg)
+}
+
+fn shipped_snap<D: Doc>(doc: &D, st: &MemStorage, known: &[Known]) -> ShippedSnap {
+  let msg: &[u8] = b"c09 shipped-store probe";
+  let known = known
+    .iter()
+    .map(|k| {
+      let exists = block_on(st.key_storage().exists(&k.kid)).unwrap_or(false);
+      let rec = block_on(st.key_id_storage().get_key_id(&k.digest)).ok().map(|x| x.as_str().to_owned());
+      let signs = match catch(|| block_on(st.key_storage().sign(&k.kid, msg, &k.jwk))) {
+        Ok(Ok(sig)) => raw_verify(&k.jwk, msg, &sig),
+        _ => false,
+      };
+      (exists, rec, signs)
+    })
+    .collect();
+  ShippedSnap { doc: model_of(doc), key_count: block_on(st.key_storage().count()), id_count: block_on(st.key_id_storage().count()), known }
+}
+
+fn shipped_diff(pre: &ShippedSnap, post: &ShippedSnap) -> BTreeSet<String> {
+  let mut t = BTreeSet::new();
+  if pre.doc.methods != post.doc.methods {
+    t.insert("document-methods-changed".to_string());
+  }
+  if pre.doc.refs != post.doc.refs {
+    t.insert("document-references-changed".to_string());
+  }
+  if pre.doc.services != post.doc.services || pre.doc.rest != post.doc.rest {
+    t.insert("document-other-changed".to_string());
+  }
+  if pre.key_count != post.key_count {
+    t.insert(if post.key_count > pre.key_count { "key-store-grew" } else { "key-store-shrank" }.to_string());
+  }
+  if pre.id_count != post.id_count {
+    t.insert(if post.id_count > pre.id_count { "keyid-store-grew" } else { "keyid-store-shrank" }.to_string());
+  }
+  for (a, b) in pre.known.iter().zip(post.known.iter()) {
+    if a.0 != b.0 {
+      t.insert("known-key-existence-changed".to_string());
+    }
+    if a.1 != b.1 {
+      t.insert("known-keyid-changed".to_string());
+    }
+    if a.2 != b.2 {
+      t.insert("known-key-signing-changed".to_string());
+    }
+  }
+  t
+}
+
+/// Set-up through the stores' own API, never through the operations under test.
+fn shipped_install<D: Doc>(doc: &mut D, st: &MemStorage, frag: &str, scope: MethodScope) -> Option<Known> {
+  let out = block_on(st.key_storage().generate(JwkMemStore::ED25519_KEY_TYPE, JwsAlgorithm::EdDSA)).ok()?;
+  let m = VerificationMethod::new_from_jwk(doc.core().id().clone(), out.jwk.clone(), Some(frag)).ok()?;
+  let dg = MethodDigest::new(&m).ok()?;
+  if !doc.add_method(m, scope) {
+    return None;
+  }
+  block_on(st.key_id_storage().insert_key_id(dg.clone(), out.key_id.clone())).ok()?;
+  Some(Known { frag: frag.to_owned(), general: scope == MethodScope::VerificationMethod, kid: out.key_id, digest: dg, jwk: out.jwk })
+}
+
+fn shipped_history<D: Doc>(cx: &mut Cx, rng: &mut Rng, hid: u64) {
+  let st: MemStorage = Storage::new(JwkMemStore::new(), KeyIdMemstore::new());
+  let mut doc = D::empty();
+  let did = doc.did();
+  let mut known: Vec<Known> = Vec::new();
+  // live[i] = index into `known` of a method that is (as far as the harness has been told) in place
+  let mut live: Vec<usize> = Vec::new();
+  let mut has_svc = false;
+  if rng.bool() {
+    for (f, scope) in [("m0", MethodScope::VerificationMethod), ("e0", MethodScope::VerificationRelationship(MethodRelationship::AssertionMethod))] {
+      match shipped_install(&mut doc, &st, f, scope) {
+        Some(k) => {
+          known.push(k);
+          live.push(known.len() - 1);
+        }
+        None => {
+          cx.rep.inc("setup_failed");
+          return;
+        }
+      }
+    }
+    let mut ok = doc.attach("m0", MethodRelationship::Authentication) && doc.attach("m0", MethodRelationship::CapabilityInvocation);
+    match Service::from_json(&format!(r#"{{"id":"{did}#svc","type":"LinkedDomains","serviceEndpoint":"https://example.com/"}}"#)) {
+      Ok(s) => ok &= doc.add_service(s),
+      Err(_) => ok = false,
+    }
+    if !ok {
+      cx.rep.inc("setup_failed");
+      return;
+    }
+    has_svc = true;
+  }
+  cx.rep.inc("shipped_histories");
+  let scopes = all_scopes();
+  let steps = 4 + rng.usize(10);
+  for step in 0..steps {
+    let scope = *rng.pick(&scopes);
+    let choice = rng.below(12);
+    // ---------------------------------------------------------------- generate_method
+    if choice < 7 {
+      // 0,1: arguments expected to work; 2..: arguments / state the store (or the document) has a reason to refuse
+      let (kt, alg, fragment, why): (KeyType, JwsAlgorithm, Option<String>, &'static str) = match choice {
+        0 | 1 => (JwkMemStore::ED25519_KEY_TYPE, JwsAlgorithm::EdDSA, if rng.bool() { Some(format!("s{step}")) } else { None }, "plain"),
+        2 | 3 => {
+          let others: Vec<JwsAlgorithm> = JwsAlgorithm::ALL.iter().filter(|a| **a != JwsAlgorithm::EdDSA).cloned().collect();
+          (JwkMemStore::ED25519_KEY_TYPE, rng.pick(&others).clone(), if rng.bool() { Some(format!("s{step}")) } else { None }, "supported-key-type-other-alg")
+        }
+        4 => (KeyType::new(*rng.pick(&KEY_TYPES[1..])), rng.pick(JwsAlgorithm::ALL).clone(), if rng.bool() { Some(format!("s{step}")) } else { None }, "other-key-type"),
+        5 => {
+          let f = if !live.is_empty() && rng.chance(3, 4) {
+            let k = &known[*rng.pick(&live)];
+            if rng.bool() { k.frag.clone() } else { format!("#{}", k.frag) }
+          } else if has_svc {
+            "svc".to_string()
+          } else {
+            format!("s{step}")
+          };
+          (JwkMemStore::ED25519_KEY_TYPE, JwsAlgorithm::EdDSA, Some(f), "fragment-maybe-in-use")
+        }
+        _ => {
+          // both at once: fragment in use AND arguments the store refuses
+          let f = if !live.is_empty() { known[*rng.pick(&live)].frag.clone() } else { format!("s{step}") };
+          (KeyType::new(*rng.pick(&KEY_TYPES)), rng.pick(JwsAlgorithm::ALL).clone(), Some(f), "mixed")
+        }
+      };
+      cx.rep.eval();
+      cx.rep.inc("shipped_generate_runs");
+      let pre = shipped_snap(&doc, &st, &known);
+      let pre_ids: BTreeSet<String> = pre.doc.methods.iter().map(|(i, _, _)| i.clone()).collect();
+      let res = catch(|| block_on(doc.generate_method(&st, kt.clone(), alg.clone(), fragment.as_deref(), scope)));
+      let post = shipped_snap(&doc, &st, &known);
+      cx.rep.inc("oracle_checks");
+      let case = json!({"op":"generate_method","stores":"JwkMemStore + KeyIdMemstore (unwrapped)","doc_type":D::NAME,"history":hid,"step":step,"why":why,
+        "key_type":kt.as_str(),"alg":alg.to_string(),"scope":scope_key(scope),"fragment":fragment,
+        "key_store_count":[pre.key_count, post.key_count],"keyid_store_count":[pre.id_count, post.id_count],
+        "before":doc_refs_json(&pre.doc),"after":doc_refs_json(&post.doc)});
+      match res {
+        Err(p) => {
+          cx.rep.violation(&format!("generate-panic@{}", p.file_only()), &format!("generate_method panicked: {} at {}", p.msg, p.loc()), case);
+          return;
+        }
+        Ok(Err(e)) if is_undo(&e) => {
+          // nothing was injected: a reported failed undo still is the statement's explicit exception
+          cx.rep.inc("shipped_err_undo_reported");
+          return;
+        }
+        Ok(Err(e)) => {
+          let t = shipped_diff(&pre, &post);
+          if t.is_empty() {
+            cx.rep.inc("shipped_generate_err_clean");
+            cx.rep.inc(&format!("shipped_generate_err_clean:{why}"));
+            cx.rep.distinct("nontrivial", &format!("shipped|{}|generate|{}|{}|err", D::NAME, why, scope == MethodScope::VerificationMethod));
+          } else {
+            let tags = t.iter().cloned().collect::<Vec<_>>().join("+");
+            let mut case = case;
+            case["error"] = json!(format!("{e}"));
+            cx.rep.violation(
+              &format!("shipped-generate-err:{tags}"),
+              &format!(
+                "{}::generate_method(key_type={:?}, alg={}, scope={}, fragment={:?}) on the shipped in-memory stores returned Err({}) (not UndoOperationFailed) but: {} (key store count {} -> {}, key-id store count {} -> {})",
+                D::NAME, kt.as_str(), alg, scope_key(scope), fragment, e, tags, pre.key_count, post.key_count, pre.id_count, post.id_count
+              ),
+              case,
+            );
+            return;
+          }
+        }
+        Ok(Ok(frag)) => {
+          // completed: exactly one new method with the announced id, one more key, one more key id, recorded and signing
+          let mut bad: BTreeSet<String> = BTreeSet::new();
+          let new_id = format!("{did}#{frag}");
+          let new: Vec<&(String, String, String)> = post.doc.methods.iter().filter(|(i, _, _)| !pre_ids.contains(i)).collect();
+          if new.len() != 1 || new[0].0 != new_id || pre.doc.methods.iter().any(|m| !post.doc.methods.contains(m)) {
+            bad.insert("method-not-added-as-announced".into());
+          } else if new[0].1 != scope_key(scope) {
+            bad.insert("method-in-wrong-scope".into());
+          }
+          if let Some(f) = &fragment {
+            if f.trim_start_matches('#') != frag {
+              bad.insert("method-not-added-as-announced".into());
+            }
+          }
+          if pre.doc.refs != post.doc.refs || pre.doc.services != post.doc.services || pre.doc.rest != post.doc.rest {
+            bad.insert("document-otherwise-changed".into());
+          }
+          if post.key_count != pre.key_count + 1 {
+            bad.insert("key-store-not-grown-by-one".into());
+          }
+          if post.id_count != pre.id_count + 1 {
+            bad.insert("keyid-store-not-grown-by-one".into());
+          }
+          if pre.known != post.known {
+            bad.insert("other-entries-changed".into());
+          }
+          let mut newk: Option<Known> = None;
+          if bad.is_empty() {
+            let m = catch(|| doc.core().resolve_method(new_id.as_str(), Some(scope)).cloned()).ok().flatten();
+            match m {
+              None => {
+                bad.insert("method-does-not-resolve-in-scope".into());
+              }
+              Some(m) => match (catch(|| MethodDigest::new(&m)), m.data()) {
+                (Ok(Ok(dg)), MethodData::PublicKeyJwk(jwk)) => match block_on(st.key_id_storage().get_key_id(&dg)) {
+                  Ok(kid) => {
+                    if !block_on(st.key_storage().exists(&kid)).unwrap_or(false) {
+                      bad.insert("recorded-key-does-not-exist".into());
+                    }
+                    let payload: &[u8] = b"c09 payload";
+                    match catch(|| block_on(doc.create_jws(&st, new_id.as_str(), payload, &JwsSignatureOptions::default()))) {
+                      Ok(Ok(jws)) if own_verify(jwk, jws.as_str(), payload) => cx.rep.inc("shipped_generate_sign_verified"),
+                      Ok(Ok(_)) => {
+                        bad.insert("signature-does-not-verify".into());
+                      }
+                      _ => {
+                        bad.insert("signing-fails".into());
+                      }
+                    }
+                    newk = Some(Known { frag: frag.clone(), general: scope == MethodScope::VerificationMethod, kid, digest: dg, jwk: jwk.clone() });
+                  }
+                  Err(_) => {
+                    bad.insert("keyid-not-recorded-for-method".into());
+                  }
+                },
+                _ => {
+                  bad.insert("method-digest-fails".into());
+                }
+              },
+            }
+          }
+          if !bad.is_empty() {
+            let tags = bad.iter().cloned().collect::<Vec<_>>().join("+");
+            let mut case = case;
+            case["returned_fragment"] = json!(frag);
+            cx.rep.violation(
+              &format!("shipped-generate-ok:{tags}"),
+              &format!(
+                "{}::generate_method(key_type={:?}, alg={}, scope={}, fragment={:?}) on the shipped in-memory stores returned Ok({:?}) but: {}",
+                D::NAME, kt.as_str(), alg, scope_key(scope), fragment, frag, tags
+              ),
+              case,
+            );
+            return;
+          }
+          cx.rep.inc("shipped_generate_ok");
+          cx.rep.distinct("nontrivial", &format!("shipped|{}|generate|{}|{}|ok", D::NAME, why, scope == MethodScope::VerificationMethod));
+          if let Some(k) = newk {
+            known.push(k);
+            live.push(known.len() - 1);
+          }
+        }
+      }
+    } else if choice < 11 {
+      // ---------------------------------------------------------------- purge_method
+      // target: a live method (possibly after the harness removed its key / key id from the store directly, which
+      // makes the store's delete / get_key_id fail for real), a method already purged, or an id never there
+      let (frag, li, why): (String, Option<usize>, &'static str) = if live.is_empty() || rng.chance(1, 6) {
+        let purged: Vec<&Known> = known.iter().enumerate().filter(|(i, _)| !live.contains(i)).map(|(_, k)| k).collect();
+        if !purged.is_empty() && rng.bool() {
+          (rng.pick(&purged).frag.clone(), None, "already-purged")
+        } else {
+          ("nope".to_string(), None, "absent")
+        }
+      } else {
+        let li = rng.usize(live.len());
+        let k = &known[live[li]];
+        let intact = block_on(st.key_storage().exists(&k.kid)).unwrap_or(false) && block_on(st.key_id_storage().get_key_id(&k.digest)).is_ok();
+        match if intact { rng.below(4) } else { 9 } {
+          0 => {
+            if block_on(st.key_storage().delete(&k.kid)).is_err() {
+              panic!("harness: direct delete of a live key failed");
+            }
+            (k.frag.clone(), Some(li), "key-gone-from-store")
+          }
+          1 => {
+            if block_on(st.key_id_storage().delete_key_id(&k.digest)).is_err() {
+              panic!("harness: direct delete of a live key id failed");
+            }
+            (k.frag.clone(), Some(li), "keyid-gone-from-store")
+          }
+          9 => (k.frag.clone(), Some(li), "half-backed-since-earlier-step"),
+          _ => (k.frag.clone(), Some(li), "backed"),
+        }
+      };
+      let target_id = format!("{did}#{frag}");
+      let url = identity_did::DIDUrl::parse(&target_id).expect("harness: target id");
+      cx.rep.eval();
+      cx.rep.inc("shipped_purge_runs");
+      let pre = shipped_snap(&doc, &st, &known);
+      let nrefs = pre.doc.refs.iter().filter(|(_, i)| *i == target_id).count();
+      let res = catch(|| block_on(doc.purge_method(&st, &url)));
+      let post = shipped_snap(&doc, &st, &known);
+      cx.rep.inc("oracle_checks");
+      let case = json!({"op":"purge_method","stores":"JwkMemStore + KeyIdMemstore (unwrapped)","doc_type":D::NAME,"history":hid,"step":step,"target":target_id,
+        "target_state":why,"target_references":nrefs,"key_store_count":[pre.key_count, post.key_count],"keyid_store_count":[pre.id_count, post.id_count],
+        "before":doc_refs_json(&pre.doc),"after":doc_refs_json(&post.doc)});
+      match res {
+        Err(p) => {
+          cx.rep.violation(&format!("purge-panic@{}", p.file_only()), &format!("purge_method panicked: {} at {}", p.msg, p.loc()), case);
+          return;
+        }
+        Ok(Err(e)) if is_undo(&e) => {
+          cx.rep.inc("shipped_err_undo_reported");
+          return;
+        }
+        Ok(Err(e)) => {
+          let t = shipped_diff(&pre, &post);
+          if t.is_empty() {
+            cx.rep.inc("shipped_purge_err_clean");
+            cx.rep.inc(&format!("shipped_purge_err_clean:{why}"));
+            cx.rep.distinct("nontrivial", &format!("shipped|{}|purge|{}|refs{}|err", D::NAME, why, nrefs.min(2)));
+            // the harness's own sabotage stays: the method is in the document but half-backed; take it out of `live`
+            // for generate-clash purposes? No: it still is in the document. Keep it live (a later purge fails again).
+          } else {
+            let tags = t.iter().cloned().collect::<Vec<_>>().join("+");
+            let mut case = case;
+            case["error"] = json!(format!("{e}"));
+            cx.rep.violation(
+              &format!("shipped-purge-err:{tags}:{}", if li.is_some() && why != "backed" { "target-half-backed" } else { why }),
+              &format!(
+                "{}::purge_method({}) [{}; {} reference(s)] on the shipped in-memory stores returned Err({}) (not UndoOperationFailed) but: {} (key store count {} -> {}, key-id store count {} -> {})",
+                D::NAME, target_id, why, nrefs, e, tags, pre.key_count, post.key_count, pre.id_count, post.id_count
+              ),
+              case,
+            );
+            return;
+          }
+        }
+        Ok(Ok(())) => {
+          let mut bad: BTreeSet<String> = BTreeSet::new();
+          match li {
+            None => {
+              bad.insert("ok-for-absent-method".into());
+            }
+            Some(li) => {
+              let ki = live[li];
+              if post.doc.methods.iter().any(|(i, _, _)| *i == target_id) {
+                bad.insert("method-left".into());
+              }
+              if post.doc.refs.iter().any(|(_, i)| *i == target_id) {
+                bad.insert("reference-left".into());
+              }
+              if post.known[ki].0 {
+                bad.insert("key-left".into());
+              }
+              if post.known[ki].1.is_some() {
+                bad.insert("keyid-left".into());
+              }
+              // nothing else moved
+              let others_doc = pre.doc.methods.iter().filter(|(i, _, _)| *i != target_id).all(|m| post.doc.methods.contains(m))
+                && pre.doc.refs.iter().filter(|(_, i)| *i != target_id).all(|r| post.doc.refs.contains(r))
+                && post.doc.methods.iter().all(|m| pre.doc.methods.contains(m))
+                && post.doc.refs.iter().all(|r| pre.doc.refs.contains(r))
+                && pre.doc.services == post.doc.services
+                && pre.doc.rest == post.doc.rest;
+              if !others_doc {
+                bad.insert("document-otherwise-changed".into());
+              }
+              if pre.known.iter().zip(post.known.iter()).enumerate().any(|(i, (a, b))| i != ki && a != b) {
+                bad.insert("other-entries-changed".into());
+              }
+              let gone_keys = pre.known[ki].0 as usize;
+              let gone_ids = pre.known[ki].1.is_some() as usize;
+              if post.key_count + gone_keys != pre.key_count {
+                bad.insert("key-store-count-unexplained".into());
+              }
+              if post.id_count + gone_ids != pre.id_count {
+                bad.insert("keyid-store-count-unexplained".into());
+              }
+            }
+          }
+          if !bad.is_empty() {
+            let tags = bad.iter().cloned().collect::<Vec<_>>().join("+");
+            cx.rep.violation(
+              &format!("shipped-purge-ok:{tags}:{}", if li.is_some() && why != "backed" { "target-half-backed" } else { why }),
+              &format!("{}::purge_method({}) [{}; {} reference(s)] on the shipped in-memory stores returned Ok but: {}", D::NAME, target_id, why, nrefs, tags),
+              case,
+            );
+            return;
+          }
+          cx.rep.inc("shipped_purge_ok");
+          cx.rep.distinct("nontrivial", &format!("shipped|{}|purge|{}|refs{}|ok", D::NAME, why, nrefs.min(2)));
+          if let Some(li) = li {
+            live.remove(li);
+          }
+        }
+      }
+    } else {
+      // fault-free set-up step: attach / detach a relationship on a live general-purpose method
+      let gens: Vec<usize> = live.iter().copied().filter(|i| known[*i].general).collect();
+      if !gens.is_empty() {
+        let q = format!("{}#{}", did, known[*rng.pick(&gens)].frag);
+        let (r, _) = RELS[rng.usize(5)];
+        if rng.chance(3, 4) {
+          doc.attach(&q, r);
+        } else {
+          doc.detach(&q, r);
+        }
+      }
+    }
+  }
+}
+
+// ====================================================================================================
 
 fn main() {
   let args = Args::parse();
@@ -1923,7 +2473,12 @@ fn main() {
      exhaustive part: for every scenario (doc type x scope x fragment given/#given/from-kid x start document fresh/populated/clashing/dangling-reference, \
      resp. doc type x target embedded-in-each-relationship / general with each of the 32 reference subsets / absent x populated x poll order) every subset \
      of the call occurrences observed in any run of that scenario (operation + undo path) is injected; the same grids are repeated for key stores      returning a public JWK without / with their own kid, for purge targets not produced by generate_method (JWK method without key id / without key,      multibase backed / unbacked / undecodable, base58 undecodable, custom material) and for documents holding a method / service / reference of      another DID with the target's fragment; random part: seeded histories of generate/purge/attach \
-     steps with an n-th-call fault mask. non-trivial+distinct = (doc type, op, scenario class, set of faults that actually fired, call sequence, outcome)",
+     steps with an n-th-call fault mask; REAL failures (nothing injected): generate_method over every (key type incl. unsupported / near-miss spellings x \
+     JwsAlgorithm x scope x fragment fresh/from-kid/in-use x start document) combined with every fault subset, and seeded multi-step histories on the \
+     UNWRAPPED shipped stores (JwkMemStore + KeyIdMemstore) mixing working calls with calls the stores refuse for real (incompatible / unsupported \
+     arguments, fragment in use, purge of an absent / already purged method, purge after the key or the key id vanished from the store), each \
+     failing call followed by a comparison of document, JwkMemStore::count, KeyIdMemstore::count and existence / recorded id / signing ability of \
+     every key the harness knows. non-trivial+distinct = (doc type, op, scenario class, set of faults that actually fired, call sequence, outcome)",
   );
 
   // ---- exhaustive fault enumeration (seed-independent)
@@ -1949,6 +2504,45 @@ fn main() {
       } else {
         run_scenario::<IotaDocument>(&mut cx, sc, idx);
       }
+    }
+  }
+
+  // ---- REAL failures: (key type x algorithm x scope x fragment x start document) grid, nothing injected + every fault subset
+  let ascs = arg_scenarios();
+  let mut seen_akinds: BTreeSet<String> = BTreeSet::new();
+  // quick tier: every (key type, alg) pair with every scope on one start document / fragment form is kept, the rest is strided
+  let astride = if args.thorough { stride } else { stride * 3 };
+  for (i, a) in ascs.iter().enumerate() {
+    for dt in 0..2u64 {
+      let first = seen_akinds.insert(format!("{}|{}", dt, arg_scenario_kind(a)));
+      let idx = i as u64 * 2 + dt;
+      let pair_rep = scale >= 1000 && a.fragment.is_none() && a.populated;
+      if !(first || pair_rep || idx % astride == 0) {
+        continue;
+      }
+      sel += 1;
+      if !args.mine(sel) {
+        continue;
+      }
+      cx.rep.inc("arg_scenarios");
+      if dt == 0 {
+        run_arg_scenario::<CoreDocument>(&mut cx, a, idx);
+      } else {
+        run_arg_scenario::<IotaDocument>(&mut cx, a, idx);
+      }
+    }
+  }
+
+  // ---- REAL failures on the unwrapped shipped stores: seeded histories
+  let n_ship_total: u64 = if args.thorough { 200_000 } else { 6_000 };
+  let n_ship = (n_ship_total * scale / 1000 / args.nshards.max(1)).max(2);
+  let mut srng = args.rng(10);
+  for h in 0..n_ship {
+    let mut r = srng.fork();
+    if h % 2 == 0 {
+      shipped_history::<CoreDocument>(&mut cx, &mut r, h);
+    } else {
+      shipped_history::<IotaDocument>(&mut cx, &mut r, h);
     }
   }
 
